@@ -9,8 +9,10 @@ from props import common as K
 
 META = {
     "level": "other",
+    "technique": "static analysis of type-checked MIR (rustc_private driver): cancellation-safety dataflow on coroutine MIR (what a dropped future owns); event-order automaton over success paths; abstract-interpretation decision tables",
     "explanation": "Cancellation-safety rule on the pre-transform coroutine MIR: a future raced with select must not "
-                   "(transitively) perform a multi-step read into storage it owns; event-order automaton over every success "
+                   "(transitively) perform a multi-step read into storage it owns, nor keep the position of a looped single read "
+                   "in its own state; event-order automaton over every success "
                    "path of the responders (CacheResponse, payload PDUs only, EndOfData, flush — or exactly one "
                    "CacheReset/Error); one responder per query kind and Serial Notify only from the dispatch loop; the "
                    "version / length / PDU-type decision tables of the receive path computed by abstract interpretation and "
